@@ -893,6 +893,30 @@ def leaves_source(prog: Program) -> RuleResult:
             mod,
             where,
         )
+    # the enumeration is run on the leaf set it is given
+    wrap = prog.func(TREES, "all_trees_from_triples")
+    wparams = func_params(wrap)
+    construct = f"{TREES}:all_trees_from_triples/all-leaves"
+    calls = [c for c in walk_no_nested(wrap) if isinstance(c, ast.Call) and dotted(c.func) == "_all_trees_from_triples" and c.args]
+    if not calls:
+        raise AnalysisError("all_trees_from_triples: call of the recursive enumerator not found")
+    for call in calls:
+        arg = call.args[0]
+        src = arg
+        if isinstance(arg, ast.Name) and arg.id != wparams[0]:
+            got = reaching(wrap, arg.id, call)
+            src = got if got is not None and not isinstance(got, Opaque) else arg
+        while isinstance(src, ast.Call) and dotted(src.func) in ("list", "sorted", "tuple") and len(src.args) == 1:
+            src = src.args[0]
+        if isinstance(src, ast.Name) and src.id == wparams[0]:
+            res.ok(construct, f"the enumerator receives `{wparams[0]}` as given")
+            continue
+        filtered = isinstance(src, (ast.ListComp, ast.SetComp, ast.GeneratorExp)) and any(g.ifs for g in src.generators)
+        returned_directly = any(isinstance(r, ast.Return) and r.value is call for r in walk_no_nested(wrap))
+        if filtered and returned_directly:
+            res.fail(construct, f"the enumerator is run on `{short(src, 70)}`, a part of the leaves, and its answer is returned as is: the leaves left out appear in no tree", mod, call)
+        else:
+            raise AnalysisError(f"all_trees_from_triples: the enumerator is run on `{short(src, 60)}`, not on the leaf set that was given; whether every leaf still appears in every answer (also when no leaf is constrained) is not decided")
     return res
 
 
